@@ -72,6 +72,7 @@ type c17xReader struct {
 	pre   []int
 	done  bool
 	reads int
+	hook  func(pos int) // c17_meta.go: told the position before every read and at the end of the data
 }
 
 func newC17xReader(data []byte, sc c17xScript) *c17xReader {
@@ -86,6 +87,17 @@ func (r *c17xReader) endErr() error {
 }
 
 func (r *c17xReader) Read(p []byte) (int, error) {
+	if r.hook != nil {
+		r.hook(r.pos)
+	}
+	n, err := r.read(p)
+	if err != nil && r.hook != nil {
+		r.hook(r.pos)
+	}
+	return n, err
+}
+
+func (r *c17xReader) read(p []byte) (int, error) {
 	r.reads++
 	if len(p) == 0 {
 		return 0, nil
@@ -187,7 +199,11 @@ func (r c17xSeeker) Seek(offset int64, whence int) (int64, error) {
 
 // the reader as RestoreFromReader gets it; cleanup closes what was opened
 func (h *c17Run) c17xPresent(data []byte, sc c17xScript) (io.Reader, func(), error) {
-	rd := newC17xReader(data, sc)
+	return h.c17xPresentReader(newC17xReader(data, sc), sc)
+}
+
+func (h *c17Run) c17xPresentReader(rd *c17xReader, sc c17xScript) (io.Reader, func(), error) {
+	data := rd.data
 	switch sc.flav {
 	case "r":
 		return struct{ io.Reader }{rd}, func() {}, nil
@@ -441,13 +457,14 @@ func (h *c17Run) doRestore(caseTok string, refusable bool, restore func()) {
 		h.stats["op_restore_hang"]++
 		return
 	}
+	h.idfCalls += int(atomic.SwapInt64(&h.mcalls, 0)) // idF invocations of the calls the reader made (c17_meta.go)
 	if panicked != nil {
 		var perr error
 		if e, ok := panicked.(error); ok {
 			perr = e
 		}
 		if refusable && perr != nil && errors.Is(perr, errC17xReader) {
-			h.emit(caseTok, fmt.Sprintf("restore refused fired=%d", atomic.LoadInt64(&h.fired)))
+			h.emit(caseTok, fmt.Sprintf("restore refused fired=%d", atomic.LoadInt64(&h.fired))+h.c17mLogText())
 			h.stats["op_restore_refused"]++
 			return
 		}
@@ -491,7 +508,7 @@ func (h *c17Run) doRestore(caseTok string, refusable bool, restore func()) {
 		h.mu.Unlock()
 		obs += fmt.Sprintf(" calls=%d S[%s]", h.idfCalls, strings.Join(ls, ","))
 	}
-	h.emit(caseTok, obs)
+	h.emit(caseTok, obs+h.c17mLogText())
 	h.stats["op_restore"]++
 }
 
@@ -528,6 +545,10 @@ func (h *c17Run) genRestore(r *rng, k int) {
 		k = 0
 	}
 	if k < len(h.files) && r.chance(55) {
+		if r.chance(30) {
+			h.genRestoreCb(r, k) // the reader asks the database for its metadata while it streams (c17_meta.go)
+			return
+		}
 		h.opRestoreReader(k, c17xGenScript(r, len(h.files[k])))
 		return
 	}
